@@ -14,6 +14,7 @@ package main
 
 import (
 	"fmt"
+	"go/constant"
 	"go/types"
 	"strings"
 
@@ -43,6 +44,99 @@ func (e *Engine) declABI() {
 	e.vc.declFun("bv_pad", []string{"BV", "Int"}, "BV")
 	e.vc.declFun("hexdec", []string{"Str"}, "BV")
 	e.vc.declFun("ishexbytes", []string{"Str"}, "Bool")
+	// decoding: abi_unpack_at(types, data, i) is the i-th value Unpack decodes from data; on data that is the
+	// packing of a value list with the same types it is the i-th packed value (round trip); nothing else is assumed
+	e.vc.declFun("abi_unpack_at", []string{"AbiTys", "BV", "Int"}, "AbiVal")
+	e.vc.declFun("av_nth", []string{"AbiVals", "Int"}, "AbiVal")
+	e.vc.declFun("unav_int", []string{"AbiVal"}, "Int")
+	e.vc.declFun("unav_bytes", []string{"AbiVal"}, "BV")
+	e.vc.declFun("unav_str", []string{"AbiVal"}, "Str")
+	e.vc.declFun("unav_bool", []string{"AbiVal"}, "Bool")
+	e.vc.declSort("(assert (forall ((v AbiVal) (r AbiVals)) (! (= (av_nth (avcons v r) 0) v) :pattern ((avcons v r)))))")
+	e.vc.declSort("(assert (forall ((v AbiVal) (r AbiVals) (i Int)) (! (=> (> i 0) (= (av_nth (avcons v r) i) (av_nth r (- i 1)))) :pattern ((av_nth (avcons v r) i)))))")
+	e.vc.declSort("(assert (forall ((t AbiTys) (vs AbiVals) (i Int)) (! (= (abi_unpack_at t (abi_pack t vs) i) (av_nth vs i)) :pattern ((abi_unpack_at t (abi_pack t vs) i)))))")
+	e.vc.declSort("(assert (forall ((x Int)) (! (= (unav_int (av_int x)) x) :pattern ((av_int x)))))")
+	e.vc.declSort("(assert (forall ((x BV)) (! (= (unav_bytes (av_bytes x)) x) :pattern ((av_bytes x)))))")
+	e.vc.declSort("(assert (forall ((x Str)) (! (= (unav_str (av_str x)) x) :pattern ((av_str x)))))")
+	e.vc.declSort("(assert (forall ((x Bool)) (! (= (unav_bool (av_bool x)) x) :pattern ((av_bool x)))))")
+}
+
+// abiArgTypeNames recovers, for an abi.Arguments composite literal, the constant Solidity type names of its
+// elements from the SSA pattern  t = new [n]Argument; &t[i].Type <- extract(abi.NewType("name", ...), 0); slice t[:]
+func abiArgTypeNames(recv ssa.Value) []string {
+	s, ok := recv.(*ssa.Slice)
+	if !ok {
+		return nil
+	}
+	al, ok := s.X.(*ssa.Alloc)
+	if !ok {
+		return nil
+	}
+	at, ok := types.Unalias(al.Type().(*types.Pointer).Elem()).Underlying().(*types.Array)
+	if !ok {
+		return nil
+	}
+	out := make([]string, at.Len())
+	for _, ref := range *al.Referrers() {
+		ia, ok := ref.(*ssa.IndexAddr)
+		if !ok {
+			continue
+		}
+		c, ok := ia.Index.(*ssa.Const)
+		if !ok {
+			return nil
+		}
+		i := int(c.Int64())
+		for _, r2 := range *ia.Referrers() {
+			fa, ok := r2.(*ssa.FieldAddr)
+			if !ok {
+				continue
+			}
+			for _, r3 := range *fa.Referrers() {
+				st, ok := r3.(*ssa.Store)
+				if !ok || st.Addr != fa {
+					continue
+				}
+				v := st.Val
+				if ld, ok := v.(*ssa.UnOp); ok { // *alloc holding the type (escaping local)
+					if la, ok := ld.X.(*ssa.Alloc); ok {
+						for _, r4 := range *la.Referrers() {
+							if st2, ok := r4.(*ssa.Store); ok && st2.Addr == la {
+								v = st2.Val
+							}
+						}
+					}
+				}
+				ex, ok := v.(*ssa.Extract)
+				if !ok {
+					continue
+				}
+				call, ok := ex.Tuple.(*ssa.Call)
+				if !ok || call.Call.StaticCallee() == nil || call.Call.StaticCallee().String() != abiPkg+".NewType" {
+					continue
+				}
+				if k, ok := call.Call.Args[0].(*ssa.Const); ok && k.Value != nil && i < len(out) {
+					out[i] = constant.StringVal(k.Value)
+				}
+			}
+		}
+	}
+	for _, n := range out {
+		if n == "" {
+			return nil
+		}
+	}
+	return out
+}
+
+// importedType finds a named type of a dependency package in the loaded program.
+func (e *Engine) importedType(pkgPath, name string) types.Type {
+	if p := e.prog.SSA.ImportedPackage(pkgPath); p != nil {
+		if t := p.Type(name); t != nil {
+			return t.Type()
+		}
+	}
+	return nil
 }
 
 // abiValOf wraps a Go value as an AbiVal term ("" if the kind is not supported).
@@ -190,6 +284,70 @@ func init() {
 		er := e.vc.fresh("packerr", "Iface")
 		return Val{T: c.rt, Tup: []Val{out, {S: er, T: tt.At(1).Type()}}}
 	}
+	// (abi.Arguments).Unpack(data): on success a list of len(args) interface values; the i-th holds
+	// abi_unpack_at(types, data, i) with the Go type go-ethereum uses for that Solidity type
+	libSpecs["("+abiPkg+".Arguments).Unpack"] = func(c *callCtx) Val {
+		e := c.e()
+		e.declABI()
+		tt := c.rt.(*types.Tuple)
+		names := abiArgTypeNames(c.common.Args[0])
+		if names == nil {
+			e.note("approx", "abi Unpack with argument types the encoding model cannot follow: result unconstrained")
+			return c.fr.pureHavoc(c)
+		}
+		tl := "atnil"
+		for i := len(names) - 1; i >= 0; i-- {
+			tl = app("atcons", e.vc.strLit(names[i]), tl)
+		}
+		data := e.bvOf(c.st, c.args[1])
+		sl := types.Unalias(tt.At(0).Type()).Underlying().(*types.Slice)
+		hn, hs := e.vc.arrHeapName(sl.Elem())
+		h := e.heap(c.st, hn, hs)
+		ref := e.alloc(c.st)
+		arr := e.vc.fresh("unparr", "(Array Int Iface)")
+		e.setHeap(c.st, hn, hs, app("store", h, ref, arr))
+		out := e.vc.fresh("unpacked", "Slice")
+		e.assumeIn(c.st, and(eq(app("sptr", out), ref), eq(app("soff", out), "0"), eq(app("slen", out), fmt.Sprint(len(names)))))
+		for i, n := range names {
+			av := app("abi_unpack_at", tl, data, fmt.Sprint(i))
+			var v Val
+			switch {
+			case n == "string":
+				v = Val{S: app("unav_str", av), T: types.Typ[types.String]}
+			case n == "bool":
+				v = Val{S: app("unav_bool", av), T: types.Typ[types.Bool]}
+			case strings.HasPrefix(n, "uint") || strings.HasPrefix(n, "int"):
+				bt := e.importedType("math/big", "Int")
+				if bt == nil {
+					return c.fr.pureHavoc(c)
+				}
+				iv := e.vc.define("unpint", "Int", app("unav_int", av))
+				if strings.HasPrefix(n, "uint") {
+					e.assumeIn(c.st, app(">=", iv, "0"))
+				}
+				v = Val{S: iv, T: types.NewPointer(bt)}
+			case n == "bytes":
+				bs := e.freshVal(c.st, "unpbytes", types.NewSlice(types.Typ[types.Uint8]))
+				e.assumeIn(c.st, eq(e.bvOf(c.st, bs), app("unav_bytes", av)))
+				v = bs
+			case n == "address":
+				adt := e.importedType("github.com/ethereum/go-ethereum/common", "Address")
+				if adt == nil {
+					return c.fr.pureHavoc(c)
+				}
+				a := e.vc.fresh("unpaddr", e.vc.sortOf(adt))
+				e.assumeIn(c.st, eq(app("bv_of", a, "0", "20"), app("unav_bytes", av)))
+				v = Val{S: a, T: adt}
+			default:
+				e.note("approx", "abi Unpack of Solidity type "+n+": element unconstrained")
+				continue
+			}
+			boxed := c.fr.makeIface(v, sl.Elem())
+			e.assumeIn(c.st, eq(app("select", arr, fmt.Sprint(i)), boxed.S))
+		}
+		er := e.vc.fresh("unpackerr", "Iface")
+		return Val{T: c.rt, Tup: []Val{{S: ite(eq(er, "iface_nil"), out, "(mk_slice 0 0 0)"), T: tt.At(0).Type()}, {S: er, T: tt.At(1).Type()}}}
+	}
 	// common.BytesToAddress(b): the last 20 bytes of b, left-padded: ethaddr(content of b)
 	libSpecs["github.com/ethereum/go-ethereum/common.BytesToAddress"] = func(c *callCtx) Val {
 		e := c.e()
@@ -199,6 +357,14 @@ func init() {
 		arr := e.vc.fresh("ethaddr", e.vc.sortOf(c.rt))
 		e.assumeIn(c.st, eq(app("bv_of", arr, "0", fmt.Sprint(at.Len())), app("ethaddr", e.bvOf(c.st, c.args[0]))))
 		return c.ret(arr)
+	}
+	// hex.EncodeToString(b) = hexenc(content of b); decoding it gives the content back
+	libSpecs["encoding/hex.EncodeToString"] = func(c *callCtx) Val {
+		e := c.e()
+		e.declABI()
+		e.vc.declFun("hexenc", []string{"BV"}, "Str")
+		e.vc.declSort("(assert (forall ((b BV)) (! (and (= (hexdec (hexenc b)) b) (ishexbytes (hexenc b))) :pattern ((hexenc b)))))")
+		return c.def("hex", app("hexenc", e.bvOf(c.st, c.args[0])))
 	}
 	libSpecs["encoding/hex.DecodeString"] = func(c *callCtx) Val {
 		e := c.e()
